@@ -354,6 +354,24 @@ func c18Proto(t *simrt.Tape, s *simrt.Sim, w *world.World, st *Stats, formats ma
 			Key:  &pb.EnvelopeKeyRecord{Created: d.Key.Created, Key: d.Key.KeyBytes(), ParentKeyMeta: &pb.KeyMeta{KeyId: d.Key.ParentKeyMeta.KeyID, Created: d.Key.ParentKeyMeta.Created}},
 		}}}})
 	}
+	// other clients of the same sidecar, on their own streams and partitions, at the same time
+	var others []*simrt.Task
+	for i, n := 0, t.Choose(3, "proto.other-streams"); i < n; i++ {
+		part := []string{"b", "part_with_underscore"}[i]
+		others = append(others, s.Go("other-stream", func() {
+			o := &memStream{s: s, recvErrAt: -1, sendErrAt: -1}
+			o.reqs = []*pb.SessionRequest{{Request: &pb.SessionRequest_GetSession{GetSession: &pb.GetSession{PartitionId: part}}}}
+			for k := 0; k < 3; k++ {
+				o.reqs = append(o.reqs, &pb.SessionRequest{Request: &pb.SessionRequest_Encrypt{Encrypt: &pb.Encrypt{Data: []byte("other client's payload")}}})
+			}
+			svc.Session(o)
+		}))
+	}
+	defer func() {
+		for _, tk := range others {
+			s.Join(tk)
+		}
+	}()
 	if err := svc.Session(ms); err != nil || len(ms.sent) != len(ms.reqs) {
 		w.Violate("sidecar", "sidecar", "sidecar stream failed: %v (%d responses)", err, len(ms.sent))
 		return
